@@ -131,6 +131,9 @@ def main():
                     inconclusive.append((j.name, r.status + " " + r.note))
                 continue
             bad = fail_desc(r, j.allow)
+            if r.status == "fail" and not r.failed:
+                inconclusive.append((j.name, "FAILED verdict without a parsed failing check"))
+                continue
             if r.status == "ok" or (r.status == "fail" and not bad):
                 missing = [d for d, s in r.covers.items() if d.startswith("W:") and s != "SATISFIED"]
                 if missing:
